@@ -29,7 +29,7 @@ RULE = (
     "bitwise equal variables, equal time instants, and the raw file carries _FillValue exactly on the "
     "variables that had one.  Non-trivial: negative, single-digit-hour or fractional-hour offsets."
     ' Also: integer time encodings whose unit does not divide the time steps; the unit strings again in child interpreters whose local time zone (TZ) is AEST-10, GMT0BST with summer time, PST8PDT; datasets with a scalar forecast reference time next to the time axis.'
-    " Also (operation sequences, mc/sequences.py): for 8 base datasets and every sequence `first [middle] query` over 36 operations (queries, in-place edits a user makes, transforms whose result is used next; quick length 2, thorough length 3) ending in one of this property's own queries, the answer on the one used object equals the answer on a never-used rebuild. Second phase: the first case of every distinct outcome and kind (thorough: every case, for expensive checks every kind) again with debug logging enabled, under numpy.errstate(all='ignore'), and in python -O child interpreters."
+    " Also (operation sequences, mc/sequences.py): for 8 base datasets and every sequence `first [middle] query` over 36 operations (queries, in-place edits a user makes, transforms whose result is used next; quick length 2, thorough length 3, and for this property length 4 `first m1 m2 query` wherever m1 or m2 is an in-place edit) ending in one of this property's own queries, the answer on the one used object equals the answer on a never-used rebuild. Second phase: the first case of every distinct outcome and kind (thorough: every case, for expensive checks every kind) again with debug logging enabled, under numpy.errstate(all='ignore'), and in python -O child interpreters."
 )
 LEVEL_TEXT = ("every (period, epoch, 15-minute UTC offset, spelling) combination of the stated product through "
               "format_time_units_for_ems, with an independent parser and cftime as consumer; save/reopen round trips "
